@@ -58,6 +58,7 @@ type Profile struct {
 	SeqWeight  int
 	Quota      bool
 	SlowReads  bool   // some clients read responses slowly (response writes are seams)
+	Prefill    int    // external mode: submissions made (honestly, through the front end) before the run proper starts
 	CacheKind  string // external mode: noop | lru | lru-ttl | chaos
 	CacheSize  int
 	CacheTTL   time.Duration
@@ -258,6 +259,25 @@ func (w *World) build() {
 	}
 	if w.mode.Foreign && t.Chance(1, 3) {
 		w.storeForeignLeaves(epoch)
+	}
+	if w.mode.External && p.Prefill > 0 {
+		// a log that already holds entries: get-entries batches longer than a handful of leaves, each with its
+		// issuance chain to be looked up, exist from the first request on
+		if w.ls != nil {
+			w.ls.SetQuiet(true) // the prologue is not part of the schedule under study
+		}
+		for i := 0; i < p.Prefill; i++ {
+			w.do(w.genSubmit())
+			if s.Violated() {
+				break
+			}
+		}
+		if w.ls != nil {
+			w.ls.SetQuiet(false)
+		}
+		w.be.Sequence(-1, false)
+		p.MaxOps += w.started
+		s.Probe("prefilled")
 	}
 	s.Logf("profile %+v pki roots=%d", *p, len(w.pki.Roots))
 	if w.ls != nil {
@@ -788,7 +808,7 @@ func (w *World) Shutdown(s *kernel.Sim) {
 // honestly, in canonical order (audit phase; driver goroutine only).
 func (w *World) do(op *Op) {
 	w.launch(op)
-	for i := 0; i < 200; i++ {
+	for i := 0; i < 2000; i++ {
 		synctest.Wait()
 		op.mu.Lock()
 		done := op.Done
